@@ -2893,7 +2893,14 @@ func rulePosSource(c *Ctx, r *R) {
 			}
 			n++
 			good := false
-			if rd, ok := unparen(call.Args[0]).(*ast.CallExpr); ok && len(rd.Args) == 1 && (strings.HasSuffix(c.CalleeName(rd), "strings.NewReader") || strings.HasSuffix(c.CalleeName(rd), "bytes.NewBufferString")) {
+			readerExpr := unparen(call.Args[0])
+			if rid, ok := readerExpr.(*ast.Ident); ok {
+				// the reader held in a local: src := strings.NewReader(in); s.Init(src)
+				if def := c.singleDef(rid); def != nil {
+					readerExpr = unparen(def)
+				}
+			}
+			if rd, ok := readerExpr.(*ast.CallExpr); ok && len(rd.Args) == 1 && (strings.HasSuffix(c.CalleeName(rd), "strings.NewReader") || strings.HasSuffix(c.CalleeName(rd), "bytes.NewBufferString")) {
 				arg := unparen(rd.Args[0])
 				if id, ok := arg.(*ast.Ident); ok {
 					if strParams[c.Obj(id)] && h == fd {
